@@ -60,6 +60,26 @@ struct SimCmpT<Tag, true> : SimCmpT<Tag, false> {
   explicit SimCmpT(int m) : SimCmpT<Tag, false>(m) {}
 };
 
+/// A comparator that is NOT trivially relocatable: it records its own address (as a comparator holding a pointer into itself
+/// would) and reports every call made on an object that sits at another address than the one it was constructed at.  A set
+/// with such a comparator must not declare itself trivially relocatable.
+template <int Tag>
+struct SimCmpSelfT {
+  int mode;
+  const SimCmpSelfT *self_;
+  SimCmpSelfT() : mode(CM_POISON), self_(this) {}
+  explicit SimCmpSelfT(int m) : mode(m), self_(this) {}
+  SimCmpSelfT(const SimCmpSelfT &o) : mode(o.mode), self_(this) {}
+  SimCmpSelfT &operator=(const SimCmpSelfT &o) { mode = o.mode; return *this; }
+  template <class A, class B>
+  bool operator()(const A &a, const B &b) const {
+    ++G.opCmpCalls; ++G.totCmp;
+    if (mode == CM_POISON) ++G.opPoisonCmpCalls;
+    if (self_ != this) ++G.opCmpBytewise;
+    return cmp_keys(mode, cmp_key_of(a), cmp_key_of(b));
+  }
+};
+
 struct ModelCmp {
   typedef void is_transparent;
   int mode;
